@@ -47,7 +47,7 @@ const c11EnumOps = 15
 const c11SweepOp = 15
 
 var (
-	c11Shapes = []string{"single", "alternative", "body+attachment", "body+embed", "attachment-only", "two-preformatted-headers", "smime-single", "smime+attachment", "two-attachments-only", "body-writer+file-writer (switchable source fault)", "caller-fixed boundary: alternative+attachment (nested multiparts)", "caller-fixed boundary: S/MIME alternative+attachment"}
+	c11Shapes = []string{"single", "alternative", "body+attachment", "body+embed", "attachment-only", "preformatted-and-many-generic-headers", "smime-single", "smime+attachment", "two-attachments-only", "body-writer+file-writer (switchable source fault)", "caller-fixed boundary: alternative+attachment (nested multiparts)", "caller-fixed boundary: S/MIME alternative+attachment"}
 	c11Srcs   = []string{"reader", "readseeker", "file", "fs.FS", "text-template", "reader(*bytes.Reader, partially consumed)", "reader(*strings.Reader)", "readseeker(partially consumed)", "reader(*os.File)"}
 	c11Ops    = []string{"WriteTo", "Write", "NewReader", "UpdateReader", "WriteToFile", "WriteToTempFile", "Send", "WriteTo(sink fails at 0)", "WriteTo(sink fails mid-way)",
 		"WriteTo(while the content source fails)", "NewReader(while the content source fails)", "UpdateReader(while the content source fails)", "Send(while the content source fails)", "NewReader(only 64 bytes read)", "NewReader(copied into a failing sink)", "WriteTo(sink fails at byte K)"}
@@ -120,6 +120,13 @@ func c11Build(cfg c11Cfg, dir string) (*mail.Msg, error) {
 		m.SetGenHeaderPreformatted(mail.Header("X-Preformatted-One"), "first value")
 		m.SetGenHeaderPreformatted(mail.Header("X-Preformatted-Two"), "second value,\r\n continued")
 		m.SetGenHeaderPreformatted(mail.Header("X-Preformatted-Three"), "third")
+		// a well-filled generic-header map: extension fields next to registered ones
+		m.SetGenHeader(mail.Header("X-Custom-A"), "first custom value")
+		m.SetGenHeader(mail.Header("X-Custom-B"), "second custom value", "with a second entry")
+		m.SetGenHeader(mail.Header("X-Zebra"), "last in the alphabet")
+		m.SetImportance(mail.ImportanceHigh)
+		m.SetBulk()
+		m.SetOrganization("Harness Org")
 	}
 	if c11HasFile(shape) {
 		var fo []mail.FileOption
@@ -442,7 +449,7 @@ func init() {
 	vf.Register(&vf.Check{
 		ID: "C11", Title: "rendering is repeatable and all output paths agree",
 		Run: func(r *vf.Run) {
-			r.SetRule("message shapes {single, alternative, body+attachment, body+embed, attachment-only, two attachments only, three preformatted headers, S/MIME single, S/MIME+attachment, nested multiparts with a caller-fixed boundary (plain and S/MIME)} × file source {io.Reader (buffer, *bytes.Reader partially consumed, *strings.Reader, *os.File), read-seeker (fresh and partially consumed), file, fs.FS, text template} × file encoding {base64, 8bit, QP} × ALL sequences of length 2..L (at length 4 without the two thin wrappers Write / WriteToTempFile) over the 9 render operations {WriteTo, Write, NewReader, UpdateReader, WriteToFile, WriteToTempFile, Send (server commit log), WriteTo into a sink failing at 0, … failing mid-way, WriteTo / NewReader / UpdateReader / Send while the content source (body or file writer function) fails, a Reader of which only 64 bytes are read, a Reader copied into a failing destination} × map-iteration start 0..7 per operation (<=1 operation deviating from start 0; thorough <=2) through the runtime seam; Date, Message-ID and boundaries are generated by go-mail on first use; plus a failure-offset sweep per configuration: [WriteTo, WriteTo into a sink that starts failing at byte K, WriteTo, WriteTo] for EVERY K of the output × {short write, rejected write}; every successful output must equal the first; distinct by (configuration, operation sequence, map starts)")
+			r.SetRule("message shapes {single, alternative, body+attachment, body+embed, attachment-only, two attachments only, three preformatted headers next to a dozen generic headers (custom X- fields, importance, bulk, organisation), S/MIME single, S/MIME+attachment, nested multiparts with a caller-fixed boundary (plain and S/MIME)} × file source {io.Reader (buffer, *bytes.Reader partially consumed, *strings.Reader, *os.File), read-seeker (fresh and partially consumed), file, fs.FS, text template} × file encoding {base64, 8bit, QP} × ALL sequences of length 2..L (at length 4 without the two thin wrappers Write / WriteToTempFile) over the 9 render operations {WriteTo, Write, NewReader, UpdateReader, WriteToFile, WriteToTempFile, Send (server commit log), WriteTo into a sink failing at 0, … failing mid-way, WriteTo / NewReader / UpdateReader / Send while the content source (body or file writer function) fails, a Reader of which only 64 bytes are read, a Reader copied into a failing destination} × map-iteration start 0..7 per operation (<=1 operation deviating from start 0; thorough <=2) through the runtime seam; Date, Message-ID and boundaries are generated by go-mail on first use; plus a failure-offset sweep per configuration: [WriteTo, WriteTo into a sink that starts failing at byte K, WriteTo, WriteTo] for EVERY K of the output × {short write, rejected write}; every successful output must equal the first; distinct by (configuration, operation sequence, map starts)")
 			r.Assume("map iteration order is owned through a runtime build-overlay seam (start offset 0..7 for maps of <= 8 entries)", "for S/MIME the per-render outer boundary and signature value are excluded: the signed entity and the remaining top-level fields are compared",
 				"Send output compares modulo the transport's final CRLF", "8bit file content with bare LF/CR compares modulo line-break canonicalisation across the Send path (the dot-writer canonicalises it; such content is illegal on the wire)")
 			if !mapseam.Enabled {
